@@ -81,6 +81,13 @@ def numOf : GoVal → Option Rat
 def derefIf (nillable : Bool) (v : GoVal) : Option GoVal :=
   if nillable then (match v with | .ptrTo x => some x | _ => none) else some v
 
+def isPow2 : Nat → Nat → Bool
+  | 0, _ => false
+  | f + 1, n => n == 1 || (n % 2 == 0 && isPow2 f (n / 2))
+
+/-- k·2^-j -/
+def isDyadic (q : Rat) : Bool := isPow2 64 q.den
+
 /-- numericValidator -/
 def checkNumeric (v : GoVal) (nillable : Bool) (c : NumCheck) : Bool :=
   c.accepts ((derefIf nillable v).bind numOf)
@@ -360,7 +367,10 @@ mutual
       | .string field mn mx p nl =>
           if checkString (fieldOf plain field) mn mx p nl then runAfter w env f ty rest raw plain else .error .string
       | .numeric field nl c =>
-          if checkNumeric (fieldOf plain field) nl c then runAfter w env f ty rest raw plain else .error .bound
+          -- convention F: float64 `math.Mod` is mirrored only for dyadic multipleOf (k·2^-j)
+          if !c.roundToInt && (match c.mult with | some m => !isDyadic m | none => false) then
+            .error (.unmodelled "float-multipleOf-non-dyadic")
+          else if checkNumeric (fieldOf plain field) nl c then runAfter w env f ty rest raw plain else .error .bound
 
   /-- the value of the default LITERAL the generator prints for a field of type `ty` (no methods run) -/
   def literal (env : Env) : Nat → GoTy → Json → R GoVal
